@@ -97,6 +97,16 @@ where G: GraphRef + NodeCount + IntoEdges + NodeIndexable {
     emit(out, ("page_rank".into(), vec![]), r);
 }
 
+fn q_prank<G>(g: G, dn: i64, dd: i64, iters: usize, out: &mut Out)
+where G: GraphRef + NodeCount + IntoEdges + NodeIndexable {
+    // ranks scaled by 1e9 and rounded; NaN / infinite = -1.  The model computes the same formula over the rationals.
+    let r = catch_unwind(AssertUnwindSafe(|| {
+        let a = algo::page_rank(g, dn as f64 / dd as f64, iters);
+        vec![line("scores", &a.iter().map(|r| if r.is_finite() { (r * 1e9).round() as i64 } else { -1 }).collect::<Vec<i64>>())]
+    }));
+    emit(out, ("prank".into(), vec![dn, dd, iters as i64]), r);
+}
+
 fn relabelled(a: &AbsGraph, r: &mut Rng) -> (AbsGraph, Vec<usize>) {
     let mut p: Vec<usize> = (0..a.n).collect();
     shuffle(r, &mut p);
@@ -123,7 +133,7 @@ macro_rules! view_hdr {
 pub fn gen(seed: u64, n: usize, out: &mut Out) {
     let mut r = Rng::new(seed ^ 0xC20);
     for id in 0..n {
-        let kind = id % 6;
+        let kind = id % 7;
         match kind {
             0 => {
                 // maximal cliques + dsatur on undirected simple graphs (dense enough to have cliques of size 3..5)
@@ -192,6 +202,28 @@ pub fn gen(seed: u64, n: usize, out: &mut Out) {
                     2 => { let g = build_stable::<Directed, u32>(&a, &mut r); view_hdr!(&g, |e| e.id().index(), g.edge_count(), g.edge_bound(), id, 2, out, dump_view); qs!(&g); }
                     3 if a.is_simple() => { let g = build_graphmap::<Directed>(&a, &mut r); view_hdr!(&g, |e| EdgeIndexable::to_index(&g, e.id()), g.edge_count(), EdgeIndexable::edge_bound(&g), id, 3, out, dump_view); qs!(&g); }
                     6 if a.is_simple() => { let g = build_matrix::<Directed, u16>(&a, &mut r); view_hdr!(&g, |_e| 0, g.edge_count(), 0, id, 6, out, dump_view); qs!(&g); }
+                    _ => { let g = build_graph::<Directed, u8>(&a, &mut r); view_hdr!(&g, |e| e.id().index(), g.edge_count(), g.edge_bound(), id, 1, out, dump_view); qs!(&g); }
+                }
+                out.end_case();
+            }
+            6 => {
+                // page_rank against its rational mirror: directed multigraphs with self-loops, dangling nodes, now and then edgeless or
+                // complete; damping 0, 1/4, 1/2, 17/20, 1; 0..12 iterations; Graph, GraphMap, Csr, List (compact node indices)
+                let simple = r.chance(60); let mut a = gen_abs(&mut r, 7, simple, true, 1, 1);
+                a.directed = true;
+                if r.chance(8) { a.edges.clear(); }
+                if r.chance(6) { a.edges.clear(); for s in 0..a.n { for t in 0..a.n { a.edges.push((s, t, 1)); } } }
+                macro_rules! qs { ($g:expr) => {{
+                    for _ in 0..3 {
+                        let (dn, dd) = [(0i64, 1i64), (1, 4), (1, 2), (17, 20), (17, 20), (1, 1)][r.below(6)];
+                        let it = [0usize, 1, 2, 3, 5, 12][r.below(6)];
+                        q_prank($g, dn, dd, it, out);
+                    }
+                }}; }
+                match [0usize, 3, 4, 0][r.below(4)] {
+                    0 => { let g = build_graph::<Directed, u32>(&a, &mut r); view_hdr!(&g, |e| e.id().index(), g.edge_count(), g.edge_bound(), id, 0, out, dump_view); qs!(&g); }
+                    3 if a.is_simple() => { let g = build_graphmap::<Directed>(&a, &mut r); view_hdr!(&g, |e| EdgeIndexable::to_index(&g, e.id()), g.edge_count(), EdgeIndexable::edge_bound(&g), id, 3, out, dump_view); qs!(&g); }
+                    4 if a.is_simple() => { let g = build_csr::<Directed, u32>(&a, &mut r); view_hdr!(&g, |e| e.id(), EdgeCount::edge_count(&g), 0, id, 4, out, dump_view_out); qs!(&g); }
                     _ => { let g = build_graph::<Directed, u8>(&a, &mut r); view_hdr!(&g, |e| e.id().index(), g.edge_count(), g.edge_bound(), id, 1, out, dump_view); qs!(&g); }
                 }
                 out.end_case();
